@@ -126,7 +126,7 @@ func (tc *TravCase) Open() (*TravEnv, error) {
 		}
 	}
 	var err error
-	env.RootNode, err = BuildBasic(tc.Root)
+	env.RootNode, err = BuildRoot(tc.Root)
 	if err != nil {
 		return nil, err
 	}
@@ -140,6 +140,76 @@ func (tc *TravCase) Open() (*TravEnv, error) {
 		return e
 	})
 	return env, nil
+}
+
+// BuildRoot builds the (unstored) root like BuildBasic, except that every bytes leaf of odd length is held in a
+// stream-backed node (basicnode.NewBytesFromReader, a datamodel.LargeBytesNode over an io.ReadSeeker) instead of a
+// plain one — a rule that depends on the value only, so a record replays the same holders.
+func BuildRoot(v *Val) (datamodel.Node, error) {
+	nb := basicnode.Prototype.Any.NewBuilder()
+	if err := assembleRoot(nb, v); err != nil {
+		return nil, err
+	}
+	return nb.Build(), nil
+}
+
+func assembleRoot(na datamodel.NodeAssembler, v *Val) error {
+	switch v.Kind {
+	case KBytes:
+		if len(v.S)%2 == 1 {
+			return na.AssignNode(basicnode.NewBytesFromReader(strings.NewReader(v.S)))
+		}
+		return Assemble(na, v)
+	case KList:
+		la, err := na.BeginList(int64(len(v.L)))
+		if err != nil {
+			return err
+		}
+		for _, x := range v.L {
+			if err := assembleRoot(la.AssembleValue(), x); err != nil {
+				return err
+			}
+		}
+		return la.Finish()
+	case KMap:
+		ma, err := na.BeginMap(int64(len(v.M)))
+		if err != nil {
+			return err
+		}
+		for _, e := range v.M {
+			va, err := ma.AssembleEntry(e.K)
+			if err != nil {
+				return err
+			}
+			if err := assembleRoot(va, e.V); err != nil {
+				return err
+			}
+		}
+		return ma.Finish()
+	}
+	return Assemble(na, v)
+}
+
+// DumpStable dumps a node and, for bytes, reads the content again (AsBytes a second time, then AsLargeBytes +
+// ReadAll): a node handed to a visitor must read the same every time (subset matches are stream-backed views).
+func DumpStable(n datamodel.Node) string {
+	d := Dump(n)
+	if n != nil && n.Kind() == datamodel.Kind_Bytes {
+		first, err1 := n.AsBytes()
+		again, err2 := n.AsBytes()
+		if err1 != nil || err2 != nil || string(first) != string(again) || "b"+Hex(string(first)) != d {
+			d += " !reread:b" + Hex(string(again))
+		}
+		if lbn, ok := n.(datamodel.LargeBytesNode); ok {
+			rs, err := lbn.AsLargeBytes()
+			if err != nil {
+				d += " !aslargebytes"
+			} else if all, err := io.ReadAll(rs); err != nil || string(all) != string(first) {
+				d += " !largebytes:b" + Hex(string(all))
+			}
+		}
+	}
+	return d
 }
 
 // CompileClass is the observation of compilation: ok | err | panic.
@@ -324,35 +394,51 @@ func WalkErrClass(err error) string {
 	return "other"
 }
 
-// Run performs Progress.WalkAdv (or WalkMatching) over the case under the given controls and returns
-// the events in order (visits and storage reads) and the error class.
-func (env *TravEnv) Run(ctl TravCtl, matching bool) ([]TravEvent, string) {
-	var evs []TravEvent
+// SharedRun is ONE fully initialised traversal.Config (Ctx and LinkTargetNodePrototypeChooser set, so that
+// Progress.init() uses the caller's value instead of a copy) used for any number of consecutive walks: what a walk
+// does must depend only on the controls in force when it starts.
+type SharedRun struct {
+	env  *TravEnv
+	cfg  *traversal.Config
+	evs  []TravEvent
+	skip map[string]bool
+}
+
+func (env *TravEnv) NewShared() *SharedRun {
+	sh := &SharedRun{env: env, skip: map[string]bool{}}
 	lsys := env.LSys
-	skip := map[string]bool{}
-	for _, s := range ctl.Skip {
-		skip[s] = true
-	}
 	inner := lsys.StorageReadOpener
 	lsys.StorageReadOpener = func(lc linking.LinkContext, l datamodel.Link) (io.Reader, error) {
-		evs = append(evs, TravEvent{Load: true, Path: PathSegs(lc.LinkPath), Cid: l.Binary()})
-		if skip[l.Binary()] {
+		sh.evs = append(sh.evs, TravEvent{Load: true, Path: PathSegs(lc.LinkPath), Cid: l.Binary()})
+		if sh.skip[l.Binary()] {
 			return nil, traversal.SkipMe{}
 		}
 		return inner(lc, l)
 	}
-	cfg := &traversal.Config{
+	sh.cfg = &traversal.Config{
 		Ctx:        context.Background(),
 		LinkSystem: lsys,
 		LinkTargetNodePrototypeChooser: func(datamodel.Link, linking.LinkContext) (datamodel.NodePrototype, error) {
 			return basicnode.Prototype.Any, nil
 		},
-		LinkVisitOnlyOnce: ctl.Once,
 	}
+	return sh
+}
+
+// Run sets the controls on the shared Config (a fresh Budget each time: a Budget is consumed by design) and walks.
+func (sh *SharedRun) Run(ctl TravCtl, matching bool) ([]TravEvent, string) {
+	sh.evs = nil
+	sh.skip = map[string]bool{}
+	for _, s := range ctl.Skip {
+		sh.skip[s] = true
+	}
+	sh.cfg.LinkVisitOnlyOnce = ctl.Once
 	if ctl.HasStart {
-		cfg.StartAtPath = SegsPath(ctl.Start)
+		sh.cfg.StartAtPath = SegsPath(ctl.Start)
+	} else {
+		sh.cfg.StartAtPath = datamodel.Path{}
 	}
-	prog := traversal.Progress{Cfg: cfg}
+	prog := traversal.Progress{Cfg: sh.cfg}
 	if ctl.NodeBudget >= 0 || ctl.LinkBudget >= 0 {
 		b := &traversal.Budget{NodeBudget: math.MaxInt64, LinkBudget: math.MaxInt64}
 		if ctl.NodeBudget >= 0 {
@@ -368,21 +454,27 @@ func (env *TravEnv) Run(ctl TravCtl, matching bool) ([]TravEvent, string) {
 		if p.LastBlock.Link != nil {
 			last = p.LastBlock.Link.Binary()
 		}
-		evs = append(evs, TravEvent{Path: PathSegs(p.Path), Reason: byte(r), Node: Dump(n), Last: last})
+		sh.evs = append(sh.evs, TravEvent{Path: PathSegs(p.Path), Reason: byte(r), Node: DumpStable(n), Last: last})
 	}
 	err := Safely(func() error {
 		if matching {
-			return prog.WalkMatching(env.RootNode, env.Sel, func(p traversal.Progress, n datamodel.Node) error {
+			return prog.WalkMatching(sh.env.RootNode, sh.env.Sel, func(p traversal.Progress, n datamodel.Node) error {
 				record(p, n, traversal.VisitReason_SelectionMatch)
 				return nil
 			})
 		}
-		return prog.WalkAdv(env.RootNode, env.Sel, func(p traversal.Progress, n datamodel.Node, r traversal.VisitReason) error {
+		return prog.WalkAdv(sh.env.RootNode, sh.env.Sel, func(p traversal.Progress, n datamodel.Node, r traversal.VisitReason) error {
 			record(p, n, r)
 			return nil
 		})
 	})
-	return evs, WalkErrClass(err)
+	return sh.evs, WalkErrClass(err)
+}
+
+// Run performs Progress.WalkAdv (or WalkMatching) over the case under the given controls, with a Config of its own,
+// and returns the events in order (visits and storage reads) and the error class.
+func (env *TravEnv) Run(ctl TravCtl, matching bool) ([]TravEvent, string) {
+	return env.NewShared().Run(ctl, matching)
 }
 
 // ---------------------------------------------------------------------------- generators
@@ -393,7 +485,7 @@ var TravKeys = []string{"a", "b", "c", "x", "0", "1", "2", "01", "+1", "-1", "",
 	"\xff", "caf\xe9", "\xe2\x82", "a\xffb", "€\xe2",
 	// JSON-Pointer look-alikes: a path segment is taken verbatim, "~0" / "~1" are not escapes
 	"~", "~0", "~1", "~01", "a~1b", "PROGRA~1"}
-var travStrs = []string{"", "a", "hello", "hello world", "é€x", "0123456789", "\xff\xfe", "/"}
+var travStrs = []string{"", "a", "hello", "hello world", "é€x", "0123456789", "\xff\xfe", "/", "0123456789abcdefghij", "0123456789abcdefghijk"}
 
 type TravGen struct {
 	Exp      map[string]int // link-expanded size of each stored block (bounds the length of a full walk)
@@ -620,7 +712,7 @@ var selLimits = []int64{0, 1, 2, 5, -3}
 // number of fields of a generated ExploreFields clause: 1-9, biased to 3, 5, 6, 7 (a slice grown by append to such a
 // length has spare capacity, which is what makes an aliased interest list observable)
 var fieldCounts = []int{1, 1, 2, 2, 3, 3, 3, 4, 5, 5, 6, 6, 7, 7, 8, 9}
-var selBounds = []int64{-7, -2, -1, 0, 1, 2, 3, 5, 100}
+var selBounds = []int64{-7, -2, -1, 0, 1, 2, 3, 4, 5, 8, 100}
 
 func (g *SelGen) matcher() *Val {
 	if g.R.Chance(35) {
